@@ -567,7 +567,7 @@ func (se *SessionExecutor) recycleBackendConn(pc backend.PooledConnect) {
 	}
 
 	if pc.IsClosed() {
-		se.recycleTx()
+		se.recycleTx(pc)
 		se.forgetKsConn(pc)
 		pc.Recycle()
 		return
@@ -605,7 +605,7 @@ func (se *SessionExecutor) recycleContinueConn(pc backend.PooledConnect) {
 		return
 	}
 	if pc.IsClosed() {
-		se.recycleTx()
+		se.recycleTx(pc)
 		se.forgetKsConn(pc)
 		pc.Recycle()
 		return
@@ -1512,13 +1512,20 @@ func (se *SessionExecutor) handleSavepoint(stmt *ast.SavepointStmt) (err error) 
 	return
 }
 
-func (se *SessionExecutor) recycleTx() {
+// recycleTx forgets a transaction connection that is being returned to its pool
+// (it was closed). The other connections of the transaction stay registered: they
+// still have to be rolled back or committed and recycled.
+func (se *SessionExecutor) recycleTx(pc backend.PooledConnect) {
 	if !se.isInTransaction() {
 		return
 	}
 	se.txLock.Lock()
 	defer se.txLock.Unlock()
-	se.txConns = make(map[string]backend.PooledConnect)
+	for sliceName, txConn := range se.txConns {
+		if txConn == pc {
+			delete(se.txConns, sliceName)
+		}
+	}
 }
 
 // handleKQuit close backend connection and recycle, only called when client exit
